@@ -70,8 +70,8 @@ PROPS = {
         'assumptions': ['handlers respect the frame condition of Props/C20 (they write only what they were given or allocated)'],
     },
     'C01': {
-        'lean_modules': ['C01', 'C01v'],
-        'engines': [('retry', 300, 2500), ('oversized', 1, 1), ('burst', 10, 60)],
+        'lean_modules': ['C01', 'C01v', 'C01t'],
+        'engines': [('retry', 300, 2500), ('oversized', 1, 1), ('burst', 10, 60), ('tloop', 150, 1500)],
         'rule': 'scripts of environment events (app requests before Connect / while connected / during an outage, dial results, CONNACK accepted with or without session / refused / never, peer close, inbound messages, Handle) with a per-packet fault plan (write failure, lost request, lost acknowledgement, silent) and a friendly tail; hand-written witnesses of the repaired defects first; all single- and double-fault plans over short histories in the thorough tier; non-trivial = the script reached at least one connection',
         'assumptions': ['one task of the RetryClient is one atomic model step (single task goroutine, one request outstanding at a time)',
                         'the transport either delivers a whole packet or fails the write; the broker conforms to MQTT 3.1.1 (Spec in Model/Retry: Broker)',
@@ -79,7 +79,7 @@ PROPS = {
         'thorough_seeds': 2,
     },
     'C02': {
-        'lean_modules': ['C02'],
+        'lean_modules': ['C02', 'C01t'],
         'engines': [('retry', 300, 2500)],
         'rule': 'scripts of environment events (app requests before Connect / while connected / during an outage, dial results, CONNACK accepted with or without session / refused / never, peer close, inbound messages, Handle) with a per-packet fault plan (write failure, lost request, lost acknowledgement, silent) and a friendly tail; hand-written witnesses of the repaired defects first; all single- and double-fault plans over short histories in the thorough tier; non-trivial = the script reached at least one connection',
         'assumptions': ['one task of the RetryClient is one atomic model step (single task goroutine, one request outstanding at a time)',
@@ -89,7 +89,7 @@ PROPS = {
     },
     'C03': {
         'lean_modules': ['C03', 'C03b'],
-        'engines': [('retry', 300, 2500), ('burst', 10, 60)],
+        'engines': [('retry', 300, 2500), ('burst', 10, 60), ('tloop', 60, 600)],
         'rule': 'scripts of environment events (app requests before Connect / while connected / during an outage, dial results, CONNACK accepted with or without session / refused / never, peer close, inbound messages, Handle) with a per-packet fault plan (write failure, lost request, lost acknowledgement, silent) and a friendly tail; hand-written witnesses of the repaired defects first; all single- and double-fault plans over short histories in the thorough tier; non-trivial = the script reached at least one connection',
         'assumptions': ['one task of the RetryClient is one atomic model step (single task goroutine, one request outstanding at a time)',
                         'the transport either delivers a whole packet or fails the write; the broker conforms to MQTT 3.1.1 (Spec in Model/Retry: Broker)',
@@ -125,7 +125,7 @@ PROPS = {
     },
     'C13': {
         'lean_modules': ['C13', 'C13o'],
-        'engines': [('ka', 150, 1500), ('kareconn', 6, 60), ('ropts', 100, 2000)],
+        'engines': [('ka', 150, 1500), ('kareconn', 6, 60), ('ropts', 100, 2000), ('bc', 120, 1200)],
         'rule': 'the real KeepAlive loop over a real BaseClient whose broker answers, ignores (timeout), kills or refuses each PINGREQ as '
                 'scripted, or whose parent context is cancelled during a ping; 0-6 answered pings before the deciding one; plus '
                 'reconnecting-client scenarios (peer answers N pings, goes silent, comes back) checked by the Go oracle only',
